@@ -45,8 +45,8 @@ WATCHDOG = {"quick": 600, "thorough": 3000}
 
 def plan(tier):
     if tier == "thorough":
-        return [{"variant": "plain", "workers": 16, "cases": 9000}]
-    return [{"variant": "plain", "workers": 8, "cases": 420}]
+        return [{"variant": "plain", "workers": 16, "cases": 24000}]
+    return [{"variant": "plain", "workers": 8, "cases": 600}]
 
 
 # thresholds on the normalised residuals  r = ||R|| / (u * max(1,n) * scale).
@@ -101,6 +101,8 @@ def make_env(ctx):
                 self.off = 0 if nooff else rng.choice([0, 0, 1, 5])
                 extra = rng.choice([0, 0, 2, -1, -1])
                 self.req = self.off + (cl - 1) * self.ld + r if (r > 0 and cl > 0) else 0
+                if r == 0 or cl == 0:
+                    extra = -1       # an empty block requires nothing; the buffer is kept generous all the same
                 if extra < 0:        # every column padded to the full leading dimension (sub-block of a host matrix)
                     minlen = max(minlen, self.off + cl * self.ld)
                     extra = rng.choice([0, 2])
@@ -283,10 +285,13 @@ def make_env(ctx):
             c.fail("%s:invalid-%s-wrong-exception" % (fname, kind),
                    what + ": raised %s (%s) instead of TypeError/ValueError" % (outcome, msg), kwargs=kwshow, buffers=lens)
 
-    # Every call is first executed in a long-lived forked "canary" child on pickled copies of the
-    # arguments, so that a wrapper that kills the interpreter (e.g. a keyword parsed into a wild
-    # pointer) costs one violation, not the worker: when the canary dies the call is reported and
-    # skipped in this process, and a new canary is forked.  (select call-backs are not sent.)
+    # A long-lived forked "canary" child executes, on pickled copies of the arguments, (a) every
+    # size-inconsistent call (never run in this process: a wrapper that accepts one writes out of bounds) and
+    # (b) the first valid call of every (function, keyword names, typecodes) signature, so that a wrapper
+    # that kills the interpreter on a class of calls (e.g. a keyword parsed into a wild pointer) costs one
+    # violation per call, not the worker.  When the canary dies the call is reported and skipped here and a
+    # new canary is forked.  (select call-backs are not sent.)  Data-dependent crashes of valid calls still
+    # take the worker down and are reported by the driver from the journal.
     import os, pickle, faulthandler, signal as _signal
     can = {"pid": None, "fin": None, "fout": None}
 
@@ -360,9 +365,16 @@ def make_env(ctx):
             return ("died", "signal %d" % os.WTERMSIG(status), False)
         return ("died", "status %r" % (status,), False)
 
+    probe_cache = {}
+
     def _probe(fname, a2, k2, sig=None):
+        """valid calls: the canary tries each new (function, keyword names, typecodes) signature once"""
+        if sig in probe_cache:
+            return probe_cache[sig]
         out = _remote(fname, a2, k2)
-        return out[1] if out[0] == "died" else None
+        res = out[1] if out[0] == "died" else None
+        probe_cache[sig] = res
+        return res
     E.probe = _probe
 
     TRACE = bool(os.environ.get("C18_TRACE"))
@@ -392,7 +404,7 @@ def make_env(ctx):
             c.fail("%s:crash" % fname, "%s kills the interpreter (%s) on a valid call with keywords %s"
                    % (fname, died, sorted(kw)), kwargs={k: v for k, v in kw.items() if not isinstance(v, Blk)})
             return False, None
-        if mutable and c.rng.random() < 0.6:
+        if mutable and c.rng.random() < 0.4:
             _try_invalid(c, fname, args, kw, grow)
         ctx.count("fn." + fname)
         try:
@@ -403,9 +415,15 @@ def make_env(ctx):
                 c.check()
                 return True, None
             c.check()
-            if isinstance(e, TypeError) and "invalid keyword" in str(e):
+            if isinstance(e, TypeError) and ("invalid keyword" in str(e) or "takes at most" in str(e)):
                 c.fail("%s:documented-keyword-rejected" % fname,
                        "%s rejects a documented keyword: %s" % (fname, e), keywords=sorted(kw))
+            elif isinstance(e, TypeError) and "is too small" in str(e) and \
+                    any(b.req == 0 and ("of %s is" % b.name) in str(e) for b in list(args) + list(kw.values()) if isinstance(b, Blk)):
+                c.fail("%s:empty-matrix-rejected" % fname,
+                       "%s raises on an empty (zero rows or columns) matrix argument: %s" % (fname, e),
+                       kwargs={k: v for k, v in kw.items() if not isinstance(v, Blk)},
+                       shapes={b.name: [b.rows, b.cols, b.mode] for b in list(args) + list(kw.values()) if isinstance(b, Blk)})
             elif isinstance(e, TypeError) and "is too small" in str(e):
                 c.fail("%s:valid-buffer-rejected-as-too-short" % fname,
                        "%s rejects a buffer that holds the addressed block (offset + (cols-1)*ld + rows elements): %s" % (fname, e),
@@ -1194,7 +1212,7 @@ def fam_qp3(E, c):
 # ============================================================================
 def _eig_checks(E, c, fname, A0, w, V, wref, n, what):
     np, R = E.np, E.R
-    nA = max(float(np.max(np.abs(wref))) if len(wref) else 0.0, 1e-300)
+    nA = max(float(np.linalg.norm(A0, 2)) if n else 0.0, 1e-300)
     c.require(bool(np.all(np.diff(w) >= 0)), fname + ":eigenvalues-not-ascending", what + ": W not ascending", W=w)
     E.resid(c, "eigval", fname + ":eigenvalues", w - wref, nA, n, what + ": W vs numpy.linalg.eigvalsh")
     if V is not None:
@@ -1787,8 +1805,14 @@ def fam_sing(E, c):
         elif how == "zero-row":
             A0[j, :] = 0
         else:
+            # two identical rows that own the largest entry (4 = power of two) of the first column: the first
+            # elimination step picks one of them, the multiplier of the other is exactly 1, its row becomes exactly 0
             i2 = (j + 1 + rng.randrange(n - 1)) % n
+            for r_ in range(n):
+                A0[r_, 0] = rng.randint(-1, 1) + (1j * rng.randint(-1, 1) if tc == "z" else 0)
+            A0[j, 0] = 4.0
             A0[i2, :] = A0[j, :]
+        c.desc.update({"how": how, "A": A0})
         A = Blk(rng, A0, tc, mode, "A")
         kw = E.dims(mode, n=n); kw.update(A.kw("ldA", "offsetA"))
         if fname == "gesv":
